@@ -63,6 +63,9 @@ TEXTS.update({
  "C09": _t("rapid property test; differential with the whole-segment response; recording ResponseWriter with one-sided timing oracle; real-time paced cases on sub-second generated assets",
            EXPL_NOTE + "Hundreds of unpaced and dozens of real-time paced responses per run, video and audio, with and without ClearKey encryption.",
            TRUST + " One-sided timing: lateness is never a failure (the server's late trailing chunk is noted in DESIGN, not asserted).", "DESIGN.md §7 C09"),
+ "C15": _t("rapid property test; differential between a scanning, a writing and a cache-loaded server over generated vod roots with injected cache faults",
+           EXPL_NOTE + "Each case builds a vod root (bundled + generated + inadmissible layouts), damages cache files in 7 ways and compares every response of the request set.",
+           TRUST + " vod.Load (harness) names the request set; gzip determinism of the Go standard library.", "DESIGN.md §7 C15"),
 })
 
 _claimed = set(TEXTS)
